@@ -56,7 +56,7 @@ def install(reg):
                                                      [("inv." + x, g) for x, g in S.inv(c.sd)], nm))
                                  for nm in ["only_percolation_caches_filled"] + ["inv." + x for x in INVN]]},
         ensures=[(nm, pick(cac_post, nm)) for nm in ["covers_owned_attractors", "only_percolation_caches_filled"] + ["inv." + x for x in INVN]],
-        note="retained-set reduction + minification (L7 cited); body verification in progress",
+        note="retained-set reduction + minification (L7 cited)",
     ))
 
     def cas_post(c):
@@ -76,7 +76,7 @@ def install(reg):
         modifies={"sd": CACHEF},
         ensures=[(nm, pick(cas_post, nm)) for nm in ["seeds_are_representatives", "sets_match_seeds", "sets_present_unless_seeds_only",
                                                       "representatives_are_kept_in_order", "only_percolation_caches_filled"] + ["inv." + x for x in INVN]],
-        note="exact filtering of candidates by symbolic reachability (AEON set operations assumed); body verification in progress",
+        note="exact filtering of candidates by symbolic reachability (AEON set operations assumed)",
     ))
 
     def fb_post(c):
